@@ -347,6 +347,9 @@ ck.notes.append(f'N2: {n2_runs} handler paths compared with the log rebuilt by f
 # ------------------------------------------------------------------ native replay on real files
 for v in ck.violations:
     w = v['witness']
+    if str(w.get('wal', '')).endswith('-double'):
+        v['native'], v['replayed'] = double_crash_replay(w)
+        continue
     if w.get('wal') == 'raft':
         rep = Replay.call({'op': 'wal_torn', 'wal': 'raft', 'k': w['k'], 'cut_offset': w['cut_offset'], 'frame_len': w['frame_len']})
         v['native'] = rep
